@@ -137,8 +137,8 @@ PROPS = {
     },
     "C12": {
         "claimed": True,
-        "model_modules": ["TemplVerif.Model.Registry"],
-        "proof_modules": ["TemplVerif.Proofs.Registry", "TemplVerif.Proofs.RegistryAux"],
+        "model_modules": ["TemplVerif.Model.Registry", "TemplVerif.Model.Denote"],
+        "proof_modules": ["TemplVerif.Proofs.Registry", "TemplVerif.Proofs.RegistryAux", "TemplVerif.Proofs.ComposeErr", "TemplVerif.Proofs.PrefixBase", "TemplVerif.Proofs.Prefix"],
         "level_text": "Lean 4 theorems, by induction over ANY sequence of uses (script rendered as a component, on* attributes referencing scripts, "
                       "class expressions holding CSS components in every container form the runtime switches on, once-handle renders) in one "
                       "context: each script definition, CSS rule and once content is emitted at most once (C12_once), a script call is always "
@@ -156,9 +156,10 @@ PROPS = {
                 "container forms incl. nesting; 150 (4000) middlewares x 3 consecutive requests + the stylesheet endpoint; 4 hoisting renders. "
                 "Non-trivial = more than two uses.",
         "exhaustive": False,
-        "proved": ["C12_once", "C12_before_script", "C12_before_class", "C12_every_use", "C12_middleware", "C12_independent"],
+        "proved": ["C12_once", "C12_before_script", "C12_before_class", "C12_every_use", "C12_middleware", "C12_independent",
+                   "whole templates (Denote, every tree and environment): the script definitions emitted during one render are pairwise different (C12_template_scripts_once, C12_template_emit)"],
         "monitored": ["two script templates that are different functions never share a function name (known finding for same body / different parameters)", "model events = events parsed from the real output", "property predicate on the real events", "stylesheet endpoint = registered classes"],
-        "partial": ["hoisting for arbitrary templates (C02)"],
+        "partial": ["CSS class rules and once handles in arbitrary templates are outside the template semantics (Denote carries script emission only); they are covered by the registry model and its event run"],
         "trusted_base": ["harness event parser", "Go map semantics of contextValue.ss"],
         "assumptions": STD_ASSUME,
     },
@@ -195,8 +196,8 @@ PROPS = {
     "C10": {
         "claimed": True,
         "race_build": True,
-        "model_modules": ["TemplVerif.Model.Buf"],
-        "proof_modules": ["TemplVerif.Proofs.Buf"],
+        "model_modules": ["TemplVerif.Model.Buf", "TemplVerif.Model.Denote"],
+        "proof_modules": ["TemplVerif.Proofs.Buf", "TemplVerif.Proofs.ComposeErr", "TemplVerif.Proofs.PrefixBase", "TemplVerif.Proofs.Prefix"],
         "thorough_shards": 8,
         "level_text": "Lean 4 theorems about the model of a generated Render over runtime.Buffer (bufio.Writer of any capacity > 0, Write / "
                       "WriteString / Flush with sticky error, large-write bypass, pool Reset-on-get): for every step list (literal and dynamic "
@@ -218,7 +219,8 @@ PROPS = {
                 "15 components x every fault offset (stride for documents > 600 bytes in quick) x 2 modes, each followed by a healthy render; "
                 "cancelled context. Non-trivial = a fault inside the document / output larger than the buffer.",
         "exhaustive": True,
-        "proved": ["C10_prefix", "C10_nil_full", "C10_fault_reported", "C10_step_error", "C10_ctx", "C10_pool"],
+        "proved": ["C10_prefix", "C10_nil_full", "C10_fault_reported", "C10_step_error", "C10_ctx", "C10_pool",
+                   "whole templates (Denote, every tree and environment): a failing render has written a prefix of the document and evaluated a prefix of the expressions of the render without failures (C10_template_prefix); no error reported => the complete document (C10_template_nil_full); nothing is written, evaluated or emitted after a failure (C10_template_frozen)"],
         "monitored": ["a component that fails by itself (also inside a Flush block) reports an error and has written a proper prefix of its non-failing variant", "the concurrent phase shared with C14 (race-built child: overlapping renders incl. CSS components and failed handler requests, every result = the render alone)", "bufio model = real runtime.Buffer (bytes received, per-operation errors)", "prefix / nil-full / fault-reported / error-line / after-failure predicates on real renders"],
         "partial": [],
         "trusted_base": ["bufio.Writer, sync.Pool"],
@@ -256,24 +258,30 @@ PROPS = {
     "C07": {
         "claimed": True,
         "model_modules": ["TemplVerif.Model.Pos", "TemplVerif.Model.SourceMap"],
-        "proof_modules": ["TemplVerif.Proofs.Pos"],
+        "proof_modules": ["TemplVerif.Proofs.Pos", "TemplVerif.Proofs.Symbols"],
         "level_text": "Lean 4 theorems about the model of parser.SourceMap and generator.RangeWriter position tracking: after Add, every rune-start "
                       "and line-end position of a (valid UTF-8) expression maps to the target position reached by advancing over the same bytes, "
                       "consecutive to consecutive, and back (C07_add); mapped positions hold the same byte (C07_same_byte); a later expression "
-                      "with different source positions does not overwrite earlier mappings (C07_no_clobber). The model is compared with the real "
+                      "with different source positions does not overwrite earlier mappings (C07_no_clobber); every symbol range recorded by "
+                      "AddSymbolRange is found again in both directions for any number of top-level nodes with pairwise different starts, and "
+                      "nothing else is found (C07_symbols_found, C07_symbols_back, C07_symbols_sound). The model is compared with the real "
                       "SourceMap.Add (random add sequences, full table dumps) and RangeWriter.Write; and on real templates (repo, seeds with "
                       "multi-byte text / multi-line expressions / CRLF / expressions before the package clause, grammar-generated) EVERY "
                       "parser.Expression of the tree (reflection) is checked against the real generated file and real source map with the Lean "
-                      "predicate exprMapped (covered; same byte; consecutive; round trip; target line/col = PositionAt of target index).",
-        "level_note": "'Every expression is covered' (C07_cover) and the symbol ranges are established per explored template by the correspondence "
-                      "run, and in general only by the generator model of C02 (not a theorem here). Byte positions are rune-start positions. "
+                      "predicate exprMapped (covered; same byte; consecutive; round trip; target line/col = PositionAt of target index), under five "
+                      "sets of generator options; every top-level template, css, script and Go block must have a symbol range that is in bounds, "
+                      "position-consistent, maps back, and whose generated text is the declaration (`func <signature>` ... `}` / the Go code).",
+        "level_note": "'Every expression is covered' (C07_cover) and that the generator passes the right ranges to AddSymbolRange are established "
+                      "per explored template by the correspondence run (there is no byte-exact model of the generator's text). Byte positions are rune-start positions. "
                       "An expression value ending in LF shares its end position with the next expression (belongs to the latter).",
         "rule": "400 (20000) random Add sequences over 11 values incl. multi-line, multi-byte, CRLF; RangeWriter write sequences; 73 repo templates + "
-                "5 seeds + 250 (6000) generated templates, every expression of each. Non-trivial = more than two live expressions / multi-line or multi-byte value.",
+                "5 seeds + 250 (6000) generated templates, every expression and every top-level declaration of each, generator option sets "
+                "rotating; 200 (10000) random AddSymbolRange sequences on a 3x4 grid of starts (several symbols per line). Non-trivial = more than two live expressions / multi-line or multi-byte value.",
         "exhaustive": False,
-        "proved": ["C07_add", "C07_same_byte", "C07_no_clobber"],
-        "monitored": ["model = real SourceMap.Add tables", "model advance = real RangeWriter ranges", "exprMapped for every expression of every explored template"],
-        "partial": ["cover / symbol ranges rest on the explored templates (there is no byte-exact model of the generator's text)"],
+        "proved": ["C07_add", "C07_same_byte", "C07_no_clobber", "C07_symbols_found", "C07_symbols_back", "C07_symbols_sound"],
+        "monitored": ["model = real SourceMap.Add tables", "model advance = real RangeWriter ranges", "exprMapped for every expression of every explored template",
+                      "model = real AddSymbolRange lookups", "symbol range of every top-level declaration of every explored template encloses the generated declaration"],
+        "partial": ["that every expression is added and every declaration's range is passed to AddSymbolRange rests on the explored templates (there is no byte-exact model of the generator's text)"],
         "trusted_base": ["Go map assignment = later entry wins", "utf8 range iteration modelled by Utf8.decodeRune"],
         "assumptions": STD_ASSUME,
     },
